@@ -141,10 +141,13 @@ def live_registry(run):
                         inst = fam.from_alias(a, **kw)
                     res = order.index(type(inst)) + 1 if type(inst) in order else -2  # a class outside the family
                     break
-                except ValueError as e:
-                    if "Cannot find subclass" in str(e):
+                except ValueError:
+                    # (the wording of the message is nobody's contract: "unknown alias" is recognised by no class of the
+                    # family carrying it; otherwise it was a constructor that refused these arguments)
+                    if not any(a in getattr(c, "aliases", set()) for c in order):
                         res = 0
                         break
+                    continue
                 except TypeError:
                     continue
             if res is None:
@@ -259,6 +262,21 @@ def from_arg_table(run):
         if type(n) is not Named or n.name is not None:
             run.violation({"kind": "from_arg_null_value_not_passed_as_keyword_argument", "got": type(n).__name__,
                            "name_kwarg": repr(getattr(n, "name", "?"))})
+        # 'alias' wins by being PRESENT, not by being truthy: an empty alias is an alias like any other
+        try:
+            got = f(W, {"alias": "", "name": "hann"})
+            run.violation({"kind": "from_arg_alias_does_not_take_precedence_over_name", "got": type(got).__name__,
+                           "mapping": {"alias": "", "name": "hann"}, "what": "no class goes by the empty alias: ValueError"})
+        except ValueError:
+            pass
+        except Exception as e:
+            run.violation({"kind": "from_arg_unknown_alias_wrong_exception", "mapping": {"alias": "", "name": "hann"}, "raised": type(e).__name__})
+        Named.aliases = {"verif-named", ""}
+        n = f(W, {"alias": "", "name": "hann"})
+        if type(n) is not Named or n.name != "hann":
+            run.violation({"kind": "from_arg_alias_does_not_take_precedence_over_name", "got": type(n).__name__,
+                           "name_kwarg": repr(getattr(n, "name", None)), "mapping": {"alias": "", "name": "hann"},
+                           "what": "a class registered under the empty alias"})
     finally:
         Named.aliases = set()
     for m, cls in (({"alias": "gamma", "order": 2}, filters.GammaWindow), ({"name": "hann"}, filters.HannWindow),
